@@ -105,6 +105,7 @@ where
         let cfg = config.clone();
         let l = par_chunks(run.threads, pats.len(), |lo, hi, l| {
             for &b in &pats[lo..hi] {
+                l.enter(&cfg, op, || vec![format!("{:#x}", b)], 0);
                 l.check(&cfg, op, || vec![format!("{:#x}", b)], 0, &from_float_expect::<T>(b, f), &call(b));
             }
         });
@@ -136,6 +137,7 @@ where
         let cfg = config.clone();
         let l = par_chunks(run.threads, xs.len(), |lo, hi, l| {
             for x in &xs[lo..hi] {
+                l.enter(&cfg, op, || vec![vengine::hex(&x.le())], 0);
                 let (e, o) = one(x);
                 l.check(&cfg, op, || vec![vengine::hex(&x.le())], 0, &e, &o);
             }
